@@ -273,6 +273,14 @@ Definition finish (r : option (store * bool)) (σ0 : store) (ret : nat) : store 
   | Some (σ', true) => (σ', OErrR)
   | None => (σ0, OPanicR)
   end.
+(* safe mode: the clone becomes a live tensor only when the operation succeeds *)
+Definition finish_new (r : option (store * bool)) (σ0 : store) (d : dense) : store * oresult :=
+  match r with
+  | Some (σ', false) => let '(σ'', t) := add_t V σ' d in (σ'', OOk t)
+  | Some (σ', true) => (σ', OErrR)
+  | None => (σ0, OPanicR)
+  end.
+
 Definition finish2 (r : option (store * bool) * bool) (σ0 : store) (ret : nat) : store * oresult :=
   if snd r then (match fst r with Some (σ', _) => (σ', OErrR) | None => (σ0, OErrR) end)
   else finish (fst r) σ0 ret.
@@ -333,14 +341,7 @@ Definition eng_arith_vv (g : cellf) (σ : store) (ta tb : nat) (m : mode) : stor
               end
             | MUnsafe, _, _ => finish (e_iter g σ1 a b ai bi) σ1 ta
             | _, _, _ =>
-              match clone_of σ1 ta with
-              | Ok (σ2, tr) =>
-                match get_t σ2 tr with
-                | Some rt => finish (e_iter g σ2 rt b ai bi) σ2 tr
-                | None => (σ1, OPanicR)
-                end
-              | _ => (σ1, OPanicR)
-              end
+              let '(σ2, rt) := clone_tmp σ1 (match get_t σ1 ta with Some x => x | None => a end) in finish_new (e_iter g σ2 rt b ai bi) σ2 rt
             end
           | _, _ => (σ1, OPanicR)
           end
@@ -350,14 +351,7 @@ Definition eng_arith_vv (g : cellf) (σ : store) (ta tb : nat) (m : mode) : stor
           | MReuse _, Some r, Some rdn => finish2 (e_recv g σ1 a b rdn) σ1 r
           | MUnsafe, _, _ => finish (e_plain g σ1 a b) σ1 ta
           | _, _, _ =>
-            match clone_of σ1 ta with
-            | Ok (σ2, tr) =>
-              match get_t σ2 tr with
-              | Some rt => finish (e_plain g σ2 rt b) σ2 tr
-              | None => (σ1, OPanicR)
-              end
-            | _ => (σ1, OPanicR)
-            end
+            let '(σ2, rt) := clone_tmp σ1 (match get_t σ1 ta with Some x => x | None => a end) in finish_new (e_plain g σ2 rt b) σ2 rt
           end
       | _, _ => (σ1, OPanicR)
       end
@@ -437,16 +431,9 @@ Definition eng_arith_scalar_h (g : cellf) (σ : store) (tt : nat) (sh0 : V + nat
             end
           | MUnsafe, _, _ => finish (e_iter g σ2 dataA dataB ai bi) σ2 tt
           | _, _, _ =>
-            match clone_of σ2 tt with
-            | Ok (σ3, tr) =>
-              match get_t σ3 tr with
-              | Some rt =>
-                if leftTensor then finish (e_iter g σ3 rt dataB ai bi) σ3 tr
-                else finish (e_iter g σ3 dataA rt ai bi) σ3 tr
-              | None => (σ2, OPanicR)
-              end
-            | _ => (σ2, OPanicR)
-            end
+            let '(σ3, rt) := clone_tmp σ2 (match get_t σ2 tt with Some x => x | None => t end) in
+                if leftTensor then finish_new (e_iter g σ3 rt dataB ai bi) σ3 rt
+                else finish_new (e_iter g σ3 dataA rt ai bi) σ3 rt
           end
         else
           let seq_t := is_scalar_equiv (shp (d_ap t)) in
@@ -485,26 +472,19 @@ Definition eng_arith_scalar_h (g : cellf) (σ : store) (tt : nat) (sh0 : V + nat
             | None => (σ2, OPanicR)
             end
           | _, _, _ =>
-            match clone_of σ2 tt with
-            | Ok (σ3, tr) =>
-              match get_t σ3 tr with
-              | Some rt =>
+            let '(σ3, rt) := clone_tmp σ2 (match get_t σ2 tt with Some x => x | None => t end) in
                 (* if !leftTensor { storage.Fill(retVal, dataA) }: the clone is filled with the
                    scalar; then E.<Op>(retVal.hdr(), dataB) *)
-                if leftTensor then finish (e_plain g σ3 rt dataB) σ3 tr
+                if leftTensor then finish_new (e_plain g σ3 rt dataB) σ3 rt
                 else
                   match hd0 σ3 dataA with
                   | Some sv =>
                     match win_fill V σ3 rt (idxs (d_len rt)) sv with
-                    | Some σ4 => finish (e_plain g σ4 rt dataB) σ4 tr
+                    | Some σ4 => finish_new (e_plain g σ4 rt dataB) σ4 rt
                     | None => (σ2, OPanicR)
                     end
                   | None => (σ2, OPanicR)
                   end
-              | None => (σ2, OPanicR)
-              end
-            | _ => (σ2, OPanicR)
-            end
           end
       end
     end
@@ -576,14 +556,7 @@ Definition eng_unary (u : V -> V) (σ : store) (ta : nat) (m : mode) : store * o
               end
             | MUnsafe, _, _ => finish (run_asgs (gun u) σ1 (k_un u a ai) false) σ1 ta
             | _, _, _ =>
-              match clone_of σ1 ta with
-              | Ok (σ2, tc) =>
-                match get_t σ2 tc with
-                | Some c => finish (run_asgs (gun u) σ2 (k_un u c ai) false) σ2 tc
-                | None => (σ1, OPanicR)
-                end
-              | _ => (σ1, OPanicR)
-              end
+              let '(σ2, c) := clone_tmp σ1 (match get_t σ1 ta with Some x => x | None => a end) in finish_new (run_asgs (gun u) σ2 (k_un u c ai) false) σ2 c
             end
           end
         else
@@ -601,14 +574,7 @@ Definition eng_unary (u : V -> V) (σ : store) (ta : nat) (m : mode) : store * o
             end
           | MUnsafe, _, _ => finish (run_asgs (gun u) σ1 (k_un u a (idxs (d_len a))) false) σ1 ta
           | _, _, _ =>
-            match clone_of σ1 ta with
-            | Ok (σ2, tc) =>
-              match get_t σ2 tc with
-              | Some c => finish (run_asgs (gun u) σ2 (k_un u c (idxs (d_len c))) false) σ2 tc
-              | None => (σ1, OPanicR)
-              end
-            | _ => (σ1, OPanicR)
-            end
+            let '(σ2, c) := clone_tmp σ1 (match get_t σ1 ta with Some x => x | None => a end) in finish_new (run_asgs (gun u) σ2 (k_un u c (idxs (d_len c))) false) σ2 c
           end
       end
     end
